@@ -280,6 +280,8 @@ def key_of(b, o):
         k = "mask-exposed:%s:devnull=%s:%s" % (c["impl"], str(c["devnull"]).lower(), "/".join(b["p"][:1]))
     if b["w"] in ("extra-visible",):
         k = "extra-visible:%s:/%s" % (c["impl"], "/".join(b["p"][:1]))
+    if b["w"] == "host-canary-reachable":
+        k = "host-canary-reachable:%s:%s" % (c["impl"], "old_root" if b["k"].startswith("/old_root") else "direct")
     if b["w"] == "launch-failed":
         k = "launch-failed:%s:%s:%s" % (c["impl"], b["k"], ",".join(sorted(set(c["kinds"]))))
     return k
